@@ -145,6 +145,25 @@ Definition build_fixed (tbl : list (string * Z)) (toks : list tok) : res tree :=
 (** [f16 = true]: the implementation shows the defect *)
 Definition build_q (f16 : bool) := if f16 then build else build_fixed.
 
+(** * Concise uncertainty notation [N.ddd(uu)] ([uncertainty_tokenizer], third branch): the text of
+    the standard-deviation token when the nominal value is a plain decimal with [ndec] decimals and
+    the parenthesised part is all digits: pad with zeros to [ndec + 1] characters and put the
+    point [ndec] characters before the end (1.23(4) = 1.23 +/- 0.04, 1.2(34) = 1.2 +/- 3.4);
+    without decimals the digits are taken as they are (123(4) = 123 +/- 4). *)
+Definition concise (ndec : nat) (ds : list ascii) : list ascii :=
+  match ndec with
+  | O => ds
+  | S _ =>
+      let padded := app (replicate (S ndec - length ds) "0"%char) ds in
+      app (take (length padded - ndec) padded) ("."%char :: drop (length padded - ndec) padded)
+  end.
+Definition concise_text (ndec : nat) (digits : string) : string :=
+  string_of_list_ascii (concise ndec (list_ascii_of_string digits)).
+(** the number a digit string denotes when the point is ignored *)
+Definition digit_val (a : ascii) : N := N.of_nat (nat_of_ascii a - 48).
+Definition dval (l : list ascii) : N :=
+  fold_left (λ acc a, if is_digit a then (10 * acc + digit_val a)%N else acc) l 0%N.
+
 (** * Cases *)
 Inductive c07case :=
 | KBuild (toks : list tok) (r : bres)
@@ -155,7 +174,9 @@ Inductive c07case :=
 | KTree (s : style) (e : expr) (toks : list tok) (shown : string) (r : bres)
     (* both at once: [KRender s e toks shown] and [KBuild (toks ++ [NEWLINE; ENDMARKER]) r] *)
 | KLegal (e : expr) (b : bool)
-| KLit (n : nit) (s : string) (k : numkind).
+| KLit (n : nit) (s : string) (k : numkind)
+| KConcise (ndec : nat) (digits : string) (text : string).
+    (* uncertainty_tokenizer("N(digits)") with a nominal of ndec decimals yields the token [text] *)
 
 Definition toks_eqb (a b : list tok) : bool := bool_decide (a = b).
 
@@ -174,4 +195,5 @@ Definition c07_ok (f16 : bool) (tbl : list (string * Z)) (c : c07case) : bool :=
   | KTree s e toks shown r => render_ok s e toks shown && build_ok f16 tbl (toks ++ [TOther; TEnd]) r
   | KLegal e b => eqb (legal e) b
   | KLit n s k => numkind_eqb (lit_kind n s) k
+  | KConcise ndec digits text => String.eqb (concise_text ndec digits) text
   end.
